@@ -1061,7 +1061,10 @@ def f_nanmin(a, axis=None, keepdims=False, **kw):
 
 
 def _argmax_cells(cs):
-    """first index of the maximum: forks (returns a concrete python int)"""
+    """first index of the maximum: forks (returns a concrete python int); numpy: first NaN wins"""
+    for i, c in enumerate(cs):
+        if isinstance(c, float) and math.isnan(c):
+            return i
     best = 0
     for i in range(1, len(cs)):
         if bool(cs[i] > cs[best]):
@@ -1070,6 +1073,9 @@ def _argmax_cells(cs):
 
 
 def _argmin_cells(cs):
+    for i, c in enumerate(cs):
+        if isinstance(c, float) and math.isnan(c):
+            return i
     best = 0
     for i in range(1, len(cs)):
         if bool(cs[i] < cs[best]):
